@@ -145,6 +145,17 @@ func (t *TBSCertificate) SignWith(signer Certificate, curve Curve, sp SignerLamb
 		return nil, fmt.Errorf("invalid certificate")
 	}
 
+	if t.Version == Version2 {
+		// The v2 decoder refuses anything larger than MaxCertificateSize, do not issue what can not be read back
+		b, err := sc.Marshal()
+		if err != nil {
+			return nil, err
+		}
+		if len(b) > MaxCertificateSize {
+			return nil, NewErrInvalidCertificateProperties("certificate is too large: %d bytes, maximum is %d", len(b), MaxCertificateSize)
+		}
+	}
+
 	return sc, nil
 }
 
